@@ -6,6 +6,7 @@ import (
 	"sync"
 
 	erpc "github.com/henrylee2cn/erpc/v6"
+	"github.com/henrylee2cn/erpc/v6/codec"
 	"github.com/henrylee2cn/erpc/v6/proto/httproto"
 	"github.com/henrylee2cn/erpc/v6/proto/jsonproto"
 	"github.com/henrylee2cn/erpc/v6/proto/pbproto"
@@ -27,8 +28,25 @@ const (
 
 var regOnce sync.Once
 
+// HighCodecID is the id of a body codec the harness registers to cover ids above 127.
+const HighCodecID = 0xC8
+
+type highCodec struct{}
+
+func (highCodec) Name() string { return "verif-high" }
+func (highCodec) ID() byte     { return HighCodecID }
+func (highCodec) Marshal(v interface{}) ([]byte, error) {
+	c, _ := codec.Get('j')
+	return c.Marshal(v)
+}
+func (highCodec) Unmarshal(b []byte, v interface{}) error {
+	c, _ := codec.Get('j')
+	return c.Unmarshal(b, v)
+}
+
 func registerFilters() {
 	regOnce.Do(func() {
+		codec.Reg(highCodec{})
 		gzip.Reg(FGzip1, "gzip1", 1)
 		gzip.Reg(FGzip5, "gzip", 5)
 		gzip.Reg(FGzip9, "gzip9", 9)
